@@ -677,6 +677,90 @@ def r3_accumulate(k: Kit) -> None:
     rep.floor('C17.R3', 'accumulating option handlers', len(seen), 5)
 
 
+def r5(k: Kit) -> None:
+    """Bracket escaping of host patterns; every line for a key is tried."""
+    import fnmatch
+    rep = k.rep
+    idx = k.idx
+    rep.rule('C17.R5', 'the wildcard translation of a host pattern is '
+             'evaluated on bracketed witnesses ([host]:port forms) and the '
+             'result handed to fnmatch: `[` and `]` match themselves, `*` '
+             'and `?` stay wildcards; SSHAuthorizedKeys.validate and '
+             'SSHAllowedSigners.validate try every entry listing the key, a '
+             'non-matching line does not end the search')
+    fi = k.func('pattern._BaseWildcardPattern.__init__')
+    body = [st for st in fi.node.body if not (
+        isinstance(st, ast.Expr) and isinstance(st.value, ast.Constant))]
+    bad = None
+    n = 0
+    cases = [('[gw]:2222', '[gw]:2222', True), ('[gw]:2222', 'gw', False),
+             ('[10.0.0.?]:2222', '[10.0.0.7]:2222', True),
+             ('[10.0.0.?]:2222', '[10.0.0.77]:2222', False),
+             ('[*.example.com]:22', '[a.example.com]:22', True),
+             ('[*.example.com]:22', 'a.example.com', False),
+             ('*.example.com', 'a.example.com', True),
+             ('a]b[c', 'a]b[c', True), ('[[x]]', '[[x]]', True),
+             ('[ab]', 'a', False)]
+    for pat, value, want in cases:
+        n += 1
+        try:
+            o = evaluate(idx, fi.module, body, {}, {'pattern': pat},
+                         lambda a, b, e: Obj('x'))
+        except NotEvaluable as exc:
+            rep.error('C17.R5', key(fi, 'not-evaluable'), str(exc))
+            bad = 'error'
+            break
+        tr = o.env.get('self._pattern')
+        if tr is None:
+            tr = dict(o.stores).get('self._pattern') if not isinstance(
+                o.stores, dict) else o.stores.get('self._pattern')
+        if not isinstance(tr, str):
+            bad = bad or f'pattern {pat!r}: translation not concrete ({tr!r})'
+            continue
+        got = fnmatch.fnmatchcase(value, tr)
+        if got != want:
+            bad = bad or (f'pattern {pat!r} is translated to {tr!r}, which '
+                          f'{"matches" if got else "does not match"} '
+                          f'{value!r}')
+    if bad != 'error':
+        rep.count('eval.bracket_pattern_cases', n)
+        rep.check(bad is None, 'C17.R5', key(fi, 'bracket escaping'),
+                  f'{n} (pattern, value) witnesses through fnmatch',
+                  f'{bad}: known_hosts lines combining a [host]:port form '
+                  'with a wildcard or negation never match, so the '
+                  'plain-name fallback or a missed @revoked line decides',
+                  fi.loc(fi.node))
+    for qual in ('auth_keys.SSHAuthorizedKeys.validate',
+                 'sshsig.SSHAllowedSigners.validate'):
+        if not idx.has_func(qual):
+            rep.error('C17.R5', qual, 'function not found')
+            continue
+        f = k.func(qual)
+        g = k.cfg(f)
+        calls = k.calls_named(f, 'match_options')
+        rep.check(bool(calls), 'C17.R5', key(f, 'match_options site'),
+                  'options are matched per entry', 'no match_options call',
+                  f.loc(f.node))
+        for nd, c in calls:
+            loops = [lp for lp in g.nodes if lp.kind == 'loop' and
+                     isinstance(lp.ast, ast.For) and
+                     any(c is x for x in ast.walk(lp.ast))]
+            okl = False
+            for lp in loops:
+                # from the failing edge of the condition the loop goes on
+                for b, lab in g.succ[nd.id]:
+                    if lab is False and (b == lp.id or g.path(
+                            b, lp.id, follow_exc=False) is not None):
+                        okl = True
+            rep.check(okl, 'C17.R5', key(f, 'every entry for the key tried'),
+                      'a line whose options do not match is skipped and the '
+                      'next line for the same key is tried',
+                      'only one entry listing the key is considered: a later '
+                      'line whose from= / principals= would match is never '
+                      'tried, so acceptance depends on line order',
+                      k.loc(f, nd))
+
+
 def run(idx, rep, tier):
     k = Kit(idx, rep)
     rep.assumptions += NOT_DECIDED
@@ -687,3 +771,4 @@ def run(idx, rep, tier):
     r3(k)
     r3_accumulate(k)
     r4(k)
+    r5(k)
